@@ -270,6 +270,8 @@ def run_B(obl, exclude_known=False):
     res['exec_time_s'] = round(time.time() - t0, 2)
     res['warnings'] = sorted(r.warnings)
     res['simplified_true'] = len(r.simplified)
+    if r.dropped_on_bound:
+        res['paths_beyond_loop_bound'] = r.dropped_on_bound
     res['bounds'] = 'max_site_forks %d, %s' % (ex.opts['max_site_forks'], obl.bounds)
     solvers = obl.solvers or ('z3', 'z3-new', 'cvc5')
     qs = r.queries
@@ -609,7 +611,7 @@ def check_property(pid, obls, tier, seed, level_note='', assumptions=(), trusted
     for r in sorted(results, key=lambda r: r['id']):
         s = {k: r.get(k) for k in ('id', 'what', 'status', 'engine', 'bounds', 'queries', 'time', 'reason', 'query_stats', 'solver_wins',
                                    'solver_time_s', 'cbmc_time_s', 'paths', 'known', 'excluding_known', 'replays', 'simplified_true', 'warnings',
-                                   'external_stubs', 'libm_uninterpreted') if r.get(k) not in (None, [], {}, '')}
+                                   'external_stubs', 'libm_uninterpreted', 'paths_beyond_loop_bound', 'layout', 'note') if r.get(k) not in (None, [], {}, '')}
         if 'time' in s:
             s['time'] = round(s['time'], 2)
         o = by_id.get(r['id'])
